@@ -32,6 +32,9 @@ type c02Event struct {
 	arg  int64 // REPORT: status; REGISTER: branch id
 }
 
+// how many report attempts fail: none, all of the five attempts, one, ... (boundary values first)
+var c02ReportFails = []int{0, 5, 1, 4, 6, 2, 3}
+
 type c02World struct {
 	ev      []c02Event
 	ops     int // database operations so far
@@ -141,7 +144,7 @@ func (c02Parser) Encode(l *undo.BranchUndoLog) ([]byte, error)     { return []by
 func (c02Parser) Decode(b []byte) (*undo.BranchUndoLog, error)     { return &undo.BranchUndoLog{}, nil }
 
 func c02Setup() (*c02World, *ATConn, context.Context) {
-	w := &c02World{failAt: vrt.Choice("failAt", 7) - 1, regOutcome: vrt.Choice("register", 4), branchID: vrt.Int64("branchId"), reportFails: vrt.Choice("reportFails", vrt.Param("maxreportfails", 2)+1)}
+	w := &c02World{failAt: vrt.Choice("failAt", 7) - 1, regOutcome: vrt.Choice("register", 4), branchID: vrt.Int64("branchId"), reportFails: c02ReportFails[vrt.Choice("reportFails", vrt.Param("reportfailvalues", 3))]}
 	vrt.Assume(w.branchID != 0)
 	undo.RegisterUndoLogManager(undomysql.NewUndoLogManager())
 	undo.UndoConfig.LogSerialization = "json"
